@@ -183,6 +183,9 @@ func caseGetSTH(t *testing.T, key *logKey, usePEM bool, v variant) lib.Case {
 				ok, note = false, "get-sth: returned STH whose signature does not verify under the configured key ("+v.name+")"
 			}
 		}
+		if _, dsOK := parseDS(m.Sig); ok && decoded && (!dsOK || len(m.Root) != 32) {
+			ok, note = false, "get-sth: STH returned from a response whose signature / root hash field is malformed ("+v.name+")"
+		}
 		if ok && (!decoded || sth.TreeSize != m.TreeSize || sth.Timestamp != m.Timestamp || !bytes.Equal(sth.SHA256RootHash[:], m.Root)) {
 			ok, note = false, "get-sth: returned STH differs from the response fields ("+v.name+")"
 		}
